@@ -166,6 +166,12 @@ struct Ctl {
     faults: Vec<Value>,
     crashed: bool,
     deadline: std::time::Instant,
+    // hold rules for the in-flight abandonment scenario (one process, main thread vs. blocking-pool thread)
+    hold: String,            // "" | "bg-write-until-M2" | "M1-until-bg-idle"
+    seen_m2: bool,
+    parked: Option<i32>,     // main thread stopped at the M1 marker, to be resumed when the pool thread is idle
+    bg_tid: Option<i32>,     // thread that executed the first temp-file write
+    bg_idle: bool,
 }
 
 fn errno() -> i32 {
@@ -498,10 +504,28 @@ impl Ctl {
                     let s = String::from_utf8_lossy(&b).into_owned();
                     if let Some(m) = s.strip_prefix("FSX:") {
                         self.on_marker(tid, m);
+                        if m == "M2" {
+                            self.seen_m2 = true;
+                        }
+                        if m == "M1" && self.hold == "M1-until-bg-idle" && !self.bg_idle {
+                            // keep the dropping thread here until the blocking task has completed and its
+                            // pool thread went back to waiting
+                            self.parked = Some(tid);
+                            return Ev::Other;
+                        }
                     }
                 }
                 self.resume(tid, 0);
                 return Ev::Other;
+            }
+            if nr == 202 && Some(tid) == self.bg_tid && !self.bg_idle {
+                let op = args[1] & 0x7f;
+                if op == 0 || op == 9 {
+                    self.bg_idle = true;
+                    if let Some(p) = self.parked.take() {
+                        self.resume(p, 0);
+                    }
+                }
             }
             let actor = self.threads[&tid].actor;
             let active = actor.map(|a| self.actors[a].begun && !self.actors[a].ended).unwrap_or(false);
@@ -548,6 +572,9 @@ impl Ctl {
             }
             if let Some(st) = cur {
                 if st.in_root {
+                    if self.bg_tid.is_none() && (st.name == "write" || st.name == "pwrite64") && st.fd_path.as_deref().map(|p| p.contains("/tmp/.tmp")).unwrap_or(false) {
+                        self.bg_tid = Some(tid);
+                    }
                     let idx = self.nsteps;
                     self.nsteps += 1;
                     self.actors[st.actor].steps_done += 1;
@@ -746,6 +773,11 @@ fn main() {
         faults: spec["faults"].as_array().cloned().unwrap_or_default(),
         crashed: false,
         deadline: std::time::Instant::now() + std::time::Duration::from_millis(timeout),
+        hold: spec["hold"].as_str().unwrap_or("").to_string(),
+        seen_m2: false,
+        parked: None,
+        bg_tid: None,
+        bg_idle: false,
     };
     let strs = |v: &Value| -> Vec<String> { v.as_array().map(|a| a.iter().filter_map(|x| x.as_str().map(String::from)).collect()).unwrap_or_default() };
     if let Some(t) = spec.get("threads").filter(|t| t.is_object()) {
@@ -800,6 +832,26 @@ fn main() {
             }
         };
         let st = ctl.threads[ctl.actors[choice].queue.front().unwrap()].cur.clone().unwrap();
+        if ctl.hold == "bg-write-until-M2" && !ctl.seen_m2 && (st.name == "write" || st.name == "pwrite64")
+            && st.fd_path.as_deref().map(|p| p.contains("/tmp/.tmp")).unwrap_or(false)
+        {
+            // the blocking task's write stays held while the other thread drops the writer
+            let mut ok = true;
+            while !ctl.seen_m2 {
+                match ctl.pump() {
+                    Ev::Timeout | Ev::NoChildren => {
+                        ok = false;
+                        break;
+                    }
+                    _ => {}
+                }
+            }
+            if !ok {
+                status = "timeout".into();
+                error = json!("hold rule bg-write-until-M2: marker M2 never came");
+                break;
+            }
+        }
         ctl.decisions.push(json!({"enabled": enabled, "chosen": choice, "running": running, "sys": st.name,
                                   "path": st.paths.first().cloned().or(st.fd_path.clone())}));
         di += 1;
